@@ -108,7 +108,12 @@ func (e *FieldExpression) Evaluate(ctx *Context, input system.Collection) (syste
 		}
 		// unwrap if a ContainedResource
 		if contained, ok := message.(*bcrpb.ContainedResource); ok {
-			message = containedresource.Unwrap(contained)
+			resource := containedresource.Unwrap(contained)
+			if resource == nil {
+				// An empty ContainedResource holds nothing to navigate into.
+				continue
+			}
+			message = resource
 		}
 
 		// Get desired field
@@ -183,7 +188,12 @@ func (e *FieldExpression) Evaluate(ctx *Context, input system.Collection) (syste
 				return nil, err
 			}
 			if contained, ok := obj.(*bcrpb.ContainedResource); ok {
-				obj = containedresource.Unwrap(contained)
+				resource := containedresource.Unwrap(contained)
+				if resource == nil {
+					// An empty ContainedResource holds no element.
+					return nil, nil
+				}
+				obj = resource
 			}
 			return e.unwrapOneof(obj), nil
 		}
@@ -200,7 +210,9 @@ func (e *FieldExpression) Evaluate(ctx *Context, input system.Collection) (syste
 			if err != nil {
 				return nil, err
 			}
-			output = append(output, unwrapped)
+			if unwrapped != nil {
+				output = append(output, unwrapped)
+			}
 			continue
 		}
 		content := reflect.Get(field).List()
@@ -210,7 +222,9 @@ func (e *FieldExpression) Evaluate(ctx *Context, input system.Collection) (syste
 			if err != nil {
 				return nil, err
 			}
-			output = append(output, unwrapped)
+			if unwrapped != nil {
+				output = append(output, unwrapped)
+			}
 		}
 	}
 	return output, nil
